@@ -84,12 +84,17 @@ def run(repo, rep, tier):
         if f is None:
             raise AnalysisError('WBEMListener.%s vanished' % name)
         return f
+    from ..inline import Flat
     start, stop = m('start'), m('stop')
     run_cb, handle = m('_callback_run'), m('_handle_indication')
     stop_del, stop_thr = m('_stop_indication_delivery'), \
         m('_stop_listener_threads')
     deliver = m('_deliver_indication_to_callbacks')
     addcb = m('add_callback')
+    # the order rules are judged with private helpers inlined, so that it
+    # does not matter whether a step is written in place or extracted
+    stop_del_f, stop_thr_f = Flat(stop_del), Flat(stop_thr)
+    run_cb_f = Flat(run_cb, keep=(deliver.name,))
 
     # ---- R4 / R1 ----------------------------------------------------------
     creates = []
@@ -128,9 +133,11 @@ def run(repo, rep, tier):
                 norm(n.targets[0]) == norm(puts[0].args[0]) and \
                 isinstance(n.value, ast.Tuple):
             arity_put = [norm(e) for e in n.value.elts]
-    unp = [n for n in walk_no_nested(run_cb.node) if isinstance(n, ast.Assign)
-           and isinstance(n.targets[0], ast.Tuple)]
-    arity_get = [norm(e) for e in unp[0].targets[0].elts] if unp else None
+    unp = [n for n in walk_no_nested(run_cb_f.node)
+           if isinstance(n, ast.Assign) and
+           isinstance(n.targets[0], ast.Tuple)]
+    arity_get = [norm(e).split('$')[-1] for e in unp[0].targets[0].elts] \
+        if unp else None
     ok = arity_put is not None and arity_get is not None and \
         len(arity_put) == len(arity_get) == 3 and arity_put == arity_get
     r4.ob(ok, 'item-shape', {'put': arity_put, 'unpacked': arity_get})
@@ -159,7 +166,8 @@ def run(repo, rep, tier):
         raise AnalysisError('_callback_run no longer reads _ind_queue')
 
     # ---- R2 ---------------------------------------------------------------
-    for f in (stop, stop_del, stop_thr):
+    for f in (Flat(stop, keep=(stop_del.name, stop_thr.name)), stop_del_f,
+              stop_thr_f):
         cfg = CFG(f.node)
         joins = [s for s in cfg.stmts() if isinstance(s, ast.Expr) and
                  isinstance(s.value, ast.Call) and
@@ -198,7 +206,7 @@ def run(repo, rep, tier):
         raise AnalysisError('no clearing of callback-thread fields found on '
                             'the stop path')
     # listener threads: shutdown -> server_close -> join -> clear
-    cfg = CFG(stop_thr.node)
+    cfg = CFG(stop_thr_f.node)
     for srv, thr in (('self._http_server', 'self._http_thread'),
                      ('self._https_server', 'self._https_thread')):
         r2.sites += 1
@@ -276,7 +284,7 @@ def run(repo, rep, tier):
                     'threads before stopping indication delivery (accepted '
                     'indications could be dropped)')
     # drain before stopping the consumer (non-immediate mode)
-    cfg = CFG(stop_del.node)
+    cfg = CFG(stop_del_f.node)
     waits = [s for s in cfg.stmts() if isinstance(s, ast.While) and
              eqsrc(s.test, 'not self._ind_queue.empty()')]
     stops = [s for s in cfg.stmts() if norm(s) == thread_field + '.stop()']
@@ -322,9 +330,11 @@ def run(repo, rep, tier):
                 if norm(h.type) == 'queue.Full':
                     calls = [dotted(c.func) for b in h.body
                              for c in ast.walk(b) if isinstance(c, ast.Call)]
+                    # after the handler no success response is reachable
+                    after = cfg.reachable(h)
                     full_ok = 'self.send_error_response' in calls and \
                         'self.send_success_response' not in calls and \
-                        always_exits(h.body)
+                        not any(x in after for x in succ)
     r3.ob(full_ok, 'full->error')
     if not full_ok:
         rep.finding(r3, post.qualname, 'except queue.Full', 'full-handling',
@@ -407,10 +417,11 @@ def run(repo, rep, tier):
                     '%s can escape from _deliver_indication_to_callbacks: '
                     'task_done() is skipped and the delivery thread ends'
                     % e.exc)
-    tries = [n for n in walk_no_nested(run_cb.node) if isinstance(n, ast.Try)]
+    tries = [n for n in walk_no_nested(run_cb_f.node)
+             if isinstance(n, ast.Try)]
     ok = False
     for t in tries:
-        txt = [norm(s, 60) for s in t.body]
+        txt = [norm(s, 600) for s in t.body]
         gi = [i for i, s in enumerate(txt) if '.get(' in s]
         di = [i for i, s in enumerate(txt) if 'task_done()' in s]
         ci = [i for i, s in enumerate(txt)
@@ -430,7 +441,7 @@ def run(repo, rep, tier):
                not (isinstance(n.value, ast.Constant) and
                     n.value.value is None)}
     cleared = set()
-    for f in (stop_del, stop_thr):
+    for f in (stop_del_f, stop_thr_f):
         for n in walk_no_nested(f.node):
             if isinstance(n, ast.Assign) and \
                     isinstance(n.value, ast.Constant) and \
